@@ -366,3 +366,64 @@ Proof.
     [reflexivity | reflexivity | reflexivity | reflexivity | reflexivity | exact pex_wf | exact pex_selected_ok |].
   vm_compute. reflexivity.
 Qed.
+
+(* ---- the whole program (added once the component models were composed: Whole/Main.v [tempren_main]) ---- *)
+From Coq Require Import Permutation.
+From Tempren Require Import Pipe.FrontCompile Whole.Library Whole.Render Whole.Gather Whole.Main Whole.Facts
+  Whole.ExactWhole Whole.Examples.
+
+(* `tempren -n -cs <text> dirs` for a text that compiles against the core library, a real run on a tree with
+   ordinary names: if no entry is gathered twice and every rendered name is a usable file name (non-empty, no '/',
+   not "." or ".."), then exit status 0 means the final tree is the rendered plan applied to the initial tree all
+   at once (same nodes in the same list order, only the keys of the gathered files rewritten) - for every -r, -ih,
+   sort option and listing order. *)
+Theorem C02_whole_exact : forall upper lower o text b dirs s,
+  tree_ok s ->
+  o_mode o = MName -> o_strategy o = Stop -> o_dry o = false -> o_fault o = None ->
+  (forall l, Permutation l (o_listing o l)) ->
+  compile core_reg text = inl b ->
+  NoDup (map src_key (gather_all o s dirs)) ->
+  Forall (fun e => exists t, snd e = RText t /\ valid_name_b t = true) (whole_plan upper lower b o dirs s) ->
+  let r := tempren_main upper lower core_reg o text dirs s in
+  r_status r = 0%Z ->
+  r_final r = apply_plan s (whole_plan upper lower b o dirs s).
+Proof. exact whole_exact_name_mode. Qed.
+Print Assumptions C02_whole_exact.
+
+(* ... and when moreover every new name is free in the initial tree and no two files get the same new name, the
+   program does exit with status 0 *)
+Theorem C02_whole_all_free_succeeds : forall upper lower o text b dirs s,
+  tree_ok s ->
+  o_mode o = MName -> o_strategy o = Stop -> o_dry o = false -> o_fault o = None ->
+  (forall l, Permutation l (o_listing o l)) ->
+  args_ok s text dirs = true -> existsb (input_is_dir s) dirs = true ->
+  compile core_reg text = inl b ->
+  NoDup (map src_key (gather_all o s dirs)) ->
+  Forall (fun e => exists t, snd e = RText t /\ valid_name_b t = true) (whole_plan upper lower b o dirs s) ->
+  all_free s (whole_plan upper lower b o dirs s) ->
+  let r := tempren_main upper lower core_reg o text dirs s in
+  r_status r = 0%Z /\ r_final r = apply_plan s (whole_plan upper lower b o dirs s).
+Proof. exact whole_all_free_succeeds. Qed.
+Print Assumptions C02_whole_all_free_succeeds.
+
+(* one input path: nothing is gathered twice *)
+Theorem C02_whole_one_input_directory : forall o s d,
+  WF s -> explicit_mode o = false -> NoDup (map src_key (gather_all o s [d])).
+Proof. exact gather_one_dir_nodup. Qed.
+Print Assumptions C02_whole_one_input_directory.
+
+(* %Upper{%Base()}_%Count(start=3,step=2)%Ext() on the example tree, -r, sorted by name: the hypotheses hold, the run
+   succeeds and the tree is the plan applied *)
+Example C02_whole_example :
+  tree_ok_b ex_tree = true /\
+  (exists b, compile core_reg t_upper_count = inl b /\
+     forallb (fun e => match snd e with RText t => valid_name_b t | _ => false end)
+             (whole_plan ascii_upper_str ascii_lower_str b (ex_options MName true true) ex_dirs ex_tree) = true /\
+     r_status (ex_main (ex_options MName true true) t_upper_count ex_dirs ex_tree) = 0%Z /\
+     r_final (ex_main (ex_options MName true true) t_upper_count ex_dirs ex_tree)
+       = apply_plan ex_tree (whole_plan ascii_upper_str ascii_lower_str b (ex_options MName true true) ex_dirs ex_tree) /\
+     fs_eqb (r_final (ex_main (ex_options MName true true) t_upper_count ex_dirs ex_tree)) ex_tree = false).
+Proof.
+  split; [vm_compute; reflexivity|]. eexists. split; [vm_compute; reflexivity|].
+  vm_compute. repeat split; reflexivity.
+Qed.
